@@ -77,6 +77,8 @@ CONVSIB = ("component", "converter_siblings", {})
 COUPCNT = ("component", "coupled_counts", {})
 LOCADDR = ("iters", "location_addressing", {})
 EMITALL = ("emit", "emit_all", {})
+WCOPY = ("mutators", "write_to_copy", {})
+EXPKIND = ("misc", "export_kind_tests", {})
 
 
 def EM(kinds, names=False):
@@ -84,7 +86,7 @@ def EM(kinds, names=False):
 
 
 PROPS = {
-    "C01": P([FRESH, ("fields", "struct_copy_pairing", {}), RECD, FULLIT, TT_WE, TT_AUX, CONSTEXPR, ("emit", "section_order", {}), ("nopanic", "payload_exh_rule", {}), SCRATCH] + REIDX,
+    "C01": P([IDSPACE, FRESH, ("fields", "struct_copy_pairing", {}), RECD, FULLIT, TT_WE, TT_AUX, CONSTEXPR, ("emit", "section_order", {}), ("nopanic", "payload_exh_rule", {}), SCRATCH] + REIDX,
              "necessary-condition lint: every value type of the stated profile survives the reader→writer tables; constant-expression operators are re-emitted as themselves; sections are emitted in binary-format order; every payload kind has a handler",
              "R-TYPE-TABLE (wasm_encoder writer), aux tables, R-CONSTEXPR-TABLE, R-SECTION-ORDER, R-PAYLOAD-EXH, R-LOOP-SCRATCH, R-REFERS-EXH (the updaters run on every encode, with identity maps on an unmodified module: each must write a looked-up index back to the operand it was looked up for).",
              "that the whole output validates for every module.",
@@ -109,13 +111,13 @@ PROPS = {
              "R-IDEMPOTENT-ENCODE, R-RESOLVE-CLEARS, R-CLEAR-COHERENT.",
              "byte equality of two encodings.",
              "effect analysis of the encode call graph"),
-    "C06": P([LCG, FULLIT, KMIX, MAPUNC, ("reindex", "refers_exh", {"kind": "func"}), ("reindex", "fix_op_dispatch", {}), EM(("func",)), MAPARGS, MISS, RECALC, REORG,
+    "C06": P([EXPKIND, WCOPY, DELP, LCG, FULLIT, KMIX, MAPUNC, ("reindex", "refers_exh", {"kind": "func"}), ("reindex", "fix_op_dispatch", {}), EM(("func",)), MAPARGS, MISS, RECALC, REORG,
               ("mutators", "coupled_import_order", {}), IDSPACE, FRESH, IMPORD],
              "necessary conditions for function references to stay bound: operator coverage, every function-index sink mapped, maps not swapped, loud failure on dangling references, re-indexing armed by every order-changing mutation, reorganise's position bookkeeping, import order coupling, no cross-space id casts",
              "R-REFERS-EXH(func), R-FIXOP-DISPATCH, R-EMIT-MAPPED(func), R-MAP-ARGS, R-MISS-LOUD, R-RECALC-SET, R-REORG-INV, R-COUPLED-IMPORT-ORDER, R-IDSPACE, R-FRESH-ID, R-IMPORT-ORDINAL.",
              "that reorganise computes the right permutation for every history (only its per-branch invariant preservation is checked); validity of the output.",
              "ADT-driven exhaustiveness + sink provenance + path rules"),
-    "C07": P([IDSPACE, KMIX, MAPUNC, ("reindex", "refers_exh", {"kind": "global"}), EM(("global",)), MAPARGS, MISS, RECALC, REORG, ("mutators", "who_may_call", {}), FRESH],
+    "C07": P([WCOPY, IDSPACE, KMIX, MAPUNC, ("reindex", "refers_exh", {"kind": "global"}), EM(("global",)), MAPARGS, MISS, RECALC, REORG, ("mutators", "who_may_call", {}), FRESH],
              "necessary conditions for global references to stay bound, incl. who may add to the globals collection",
              "R-REFERS-EXH(global), R-EMIT-MAPPED(global), R-MAP-ARGS, R-MISS-LOUD, R-RECALC-SET, R-REORG-INV, R-WHOMAYCALL, R-FRESH-ID.",
              "as C06.",
@@ -125,17 +127,17 @@ PROPS = {
              "R-REFERS-EXH(memory), R-FIXOP-DISPATCH, R-EMIT-MAPPED(memory), R-MAP-ARGS, R-MISS-LOUD, R-RECALC-SET, R-REORG-INV, R-FRESH-ID.",
              "as C06.",
              "ADT-driven match exhaustiveness"),
-    "C09": P([EMITALL, MAPARGS, LCG, FULLIT, IDSPACE, KMIX, ("misc", "delete_pairing", {}), ("emit", "del_guard", {}), MISS, RECALC, REORG],
+    "C09": P([EXPKIND, WCOPY, MAPUNC, EM(("func", "global", "memory")), EMITALL, MAPARGS, LCG, FULLIT, IDSPACE, KMIX, ("misc", "delete_pairing", {}), ("emit", "del_guard", {}), MISS, RECALC, REORG] + REIDX,
              "necessary: deletes address the right element and its import, emitters skip deleted, dangling references fail loudly, re-indexing armed, reorganise bookkeeping",
              "R-DELETE-PAIRING, R-DEL-GUARD, R-MISS-LOUD, R-RECALC-SET, R-REORG-INV.",
              "that every other entity keeps its identity over all histories.",
              "field-provenance pairing + guarded-sink analysis"),
-    "C10": P([EM(("func",)), MAPUNC, FULLIT, ("reindex", "refers_exh", {"kind": "func"}), WALK, IDSPACE, ("misc", "convert_flows", {}), RECALC, IMPORD, REORG, DELP, LCG],
+    "C10": P([WCOPY, EM(("func",)), MAPUNC, FULLIT, ("reindex", "refers_exh", {"kind": "func"}), WALK, IDSPACE, ("misc", "convert_flows", {}), RECALC, IMPORD, REORG, DELP, LCG],
              "necessary: the slot flipped to Local is addressed in the function index space, under the signature guard, after the import was deleted",
              "R-IDSPACE, R-CONVERT-FLOW, R-RECALC-SET, R-IMPORT-ORDINAL, R-REORG-INV, R-DELETE-PAIRING (delete_func, which the conversion reuses, touches only the function and its import), R-LOCAL-COUNT-GUARD.",
              "that every former use executes the new body.",
              "newtype cross-space lint + path order"),
-    "C11": P([LCG, EM(("func",)), MAPUNC, DELP, ("reindex", "refers_exh", {"kind": "func"}), ("mutators", "coupled_import_order", {}), ("mutators", "counter_inv", {}), ("misc", "convert_flows", {}), RECALC, REORG],
+    "C11": P([WCOPY, LCG, EM(("func",)), MAPUNC, DELP, ("reindex", "refers_exh", {"kind": "func"}), ("mutators", "coupled_import_order", {}), ("mutators", "counter_inv", {}), ("misc", "convert_flows", {}), RECALC, REORG],
              "necessary: import order coupling, counter invariant, provenance of the new ImportedFunction",
              "R-COUPLED-IMPORT-ORDER, R-COUNTER-INV, R-CONVERT-FLOW, R-RECALC-SET, R-REORG-INV.",
              "redirect semantics over histories.",
@@ -175,7 +177,7 @@ PROPS = {
              "R-BLOCK-TABLES(1,2), R-RESOLVER-DETAILS, R-SCOPED-PENDING, R-RESOLVE-CLEARS.",
              "firing semantics.",
              "table agreement + container scoping analysis"),
-    "C20": P([EMITORD, FINISH, MODEHELP, ("misc", "if_chain", {}), LCG, SAVESIB, SCOPED, WALK, SPFLAG, CLEARCOH, MODEF, BLOCKT, DETAILS, ("misc", "flag_reset", {}), ("misc", "dead_after_sink", {}), CLEARS],
+    "C20": P([("mutators", "locals_owner", {}), EMITORD, FINISH, MODEHELP, ("misc", "if_chain", {}), LCG, SAVESIB, SCOPED, WALK, SPFLAG, CLEARCOH, MODEF, BLOCKT, DETAILS, ("misc", "flag_reset", {}), ("misc", "dead_after_sink", {}), CLEARS],
              "necessary: branch tables agree, target id arithmetic, flag protocol (set/reset), flag reset inside guard, no After code on the final end",
              "R-BLOCK-TABLES(1,3), R-RESOLVER-DETAILS, R-FLAG-RESET, R-DEAD-AFTER-SINK, R-RESOLVE-CLEARS.",
              "exactly-once at run time.",
@@ -200,12 +202,12 @@ PROPS = {
              "R-OPCODE-TABLE for all helpers, R-TYPE-TABLE(aux) for BlockType/HeapType conversions, writer agreement for DataType.",
              "Inject::inject implementations (C15/C12) and dependency From impls (trusted).",
              "abstract interpretation of each helper body; frozen reviewed name→variant table", level="proof"),
-    "C25": P([IDSPACE, SKIPPASS, ITCFG, FULLIT, ("iters", "skip_loop", {}), ("iters", "coupled_state", {}), ("iters", "index_sites", {})],
+    "C25": P([FRESH, IDSPACE, SKIPPASS, ITCFG, FULLIT, ("iters", "skip_loop", {}), ("iters", "coupled_state", {}), ("iters", "index_sites", {})],
              "necessary: the skip loop can only stop on an unskipped function or past the end; cursor and instruction bound move together; no unguarded index in the sub-iterators",
              "R-SKIP-LOOP, R-COUPLED-STATE, R-ITER-INDEX.",
              "exactly-once visiting over all skip lists.",
              "loop-exit condition analysis + path enumeration + MIR index sites"),
-    "C26": P([LOCADDR, COUPCNT, SKIPPASS, ("iters", "comp_next_fallthrough", {}), ("component", "section_pairing", {}), ITCFG, FULLIT, SIB, ("iters", "coupled_state", {}), ("mutators", "who_may_call", {})],
+    "C26": P([("iters", "skip_loop", {}), LOCADDR, COUPCNT, SKIPPASS, ("iters", "comp_next_fallthrough", {}), ("component", "section_pairing", {}), ITCFG, FULLIT, SIB, ("iters", "coupled_state", {}), ("mutators", "who_may_call", {})],
              "ModuleIterator and ComponentIterator perform the same operation on the same LocalFunction API for every trait method; module cursor changes rebuild the module sub-iterator from metadata and skip list",
              "R-SIBLING(instrumenter), R-COUPLED-STATE, R-WHOMAYCALL.",
              "visit-sequence equality over all components and skip maps.",
@@ -225,7 +227,7 @@ PROPS = {
              "R-EMIT-MAPPED(names), R-NAME-DISPATCH, R-NAME-PAIRING, R-IMPORT-ORDINAL.",
              "name equality over histories.",
              "sink provenance"),
-    "C30": P([EMITALL, RECALC, EM(("memory",)), MAPARGS, ("fields", "struct_copy_pairing", {}), CONSTEXPR, TT_BOTH, ("misc", "additions", {}), ("mutators", "swap_flows", {}), ("mutators", "who_may_call", {}), FRESH],
+    "C30": P([WCOPY, EMITALL, RECALC, EM(("memory",)), MAPARGS, ("fields", "struct_copy_pairing", {}), CONSTEXPR, TT_BOTH, ("misc", "additions", {}), ("mutators", "swap_flows", {}), ("mutators", "who_may_call", {}), FRESH],
              "bit-exact constant expressions, exact types, parameter→field flows of the module-level adders",
              "R-CONSTEXPR-TABLE, R-TYPE-TABLE incl. the wasmparser writer used by add_global, R-ADD-FLOW, R-SWAP, R-WHOMAYCALL, R-FRESH-ID.",
              "decoded equality of whole modules.",
